@@ -20,6 +20,7 @@ EXPLANATION = (
     "returned exactly on its true edge; (VIEW) len/is_empty/contains_key/capacity read slab/keys/capacity; Stream::poll_next only "
     "drops the key; Keyed::poll_next forwards unchanged; extend inserts every item; (POLL) a member is polled only if Pending and "
     "armed, with an index drawn from keys. The history-level statement follows by induction over operations; it is not enumerated.")
+EXPLANATION += (" (CTOR) with_capacity / new build slab, waker table, state table and capacity consistently; insert_pinned does the same bookkeeping as insert after growing both tables to the slab's capacity; extend / from_iter insert every item of the whole iterator exactly once.")
 ASSUMPTIONS = [
     "slab::Slab: keys of live entries are distinct and insert returns a key <= len before the insert; BTreeSet is a set (library models)",
     "the induction over operation histories is a paper argument from the per-operation obligations checked here",
@@ -102,7 +103,7 @@ def rule_done(ctx, M, u):
     # yielded value
     want = ("agg", ("Option", "Some"), (("agg", "tuple", (("agg", ("Key", "Key"), (c.idx,)), ("field", ("variant", c.site.term, "Ready"), 0))),))
     yields = [r for r in flow.returned_values(bi) if r[1] == "Ready(Some)"]
-    good = [r for r in yields if r[3] == ("agg", ("Poll", "Ready"), (want,))]
+    good = [r for r in yields if flow.refine(bi, r[3]) == ("agg", ("Poll", "Ready"), (want,))]
     if len(yields) != 1 or len(good) != 1:
         probs.append("the yielded value is not Ready(Some((Key(i), the member's own output)))")
     else:
@@ -143,6 +144,11 @@ def rule_done(ctx, M, u):
             okk = okk or (same and okm)
         elif a == c.idx and bi.guarded_by(s.block, re):
             okm, bad = bi.must_reach([t2 for _, t2 in re], [s.block], bi.return_blocks)
+            okk = okk or okm
+        elif flow.refine(bi, a) == c.idx and len(good) == 1:
+            # the key is read back from a carrier (`completed = Some((Key(i), item))`; `match completed { Some((key, _))`):
+            # removed on every path from the carrier's Some arm, which is where the value is yielded
+            okm = bi.body.dominates(s.block, good[0][0]) or bi.must_reach([good[0][0]], [s.block], bi.return_blocks)[0]
             okk = okk or okm
     if not okk:
         probs.append("the key of the yielded member is not removed from `keys` before the return")
